@@ -1,7 +1,10 @@
 package repository
 
 import (
+	"bytes"
+	"fmt"
 	"io"
+	"strings"
 
 	"github.com/ProtonMail/go-crypto/openpgp"
 	"github.com/ProtonMail/go-crypto/openpgp/armor"
@@ -64,4 +67,42 @@ func deArmorSignature(armoredSig io.Reader) (io.Reader, error) {
 		return nil, errors.InvalidArgumentError("expected '" + openpgp.SignatureType + "', got: " + block.Type)
 	}
 	return block.Body, nil
+}
+
+// splitCommitSignature splits the raw content of a git commit into what a signature covers (every
+// byte of the commit but the gpgsig header, the way git does it) and the content of that header.
+// The signature is empty if there is no gpgsig header.
+func splitCommitSignature(raw []byte) (payload []byte, signature string, err error) {
+	const header = "gpgsig "
+
+	var sig strings.Builder
+	found, inSig := false, false
+
+	payload = make([]byte, 0, len(raw))
+	rest := raw
+	// the headers stop at the first empty line
+	for len(rest) > 0 && rest[0] != '\n' {
+		line := rest
+		if end := bytes.IndexByte(rest, '\n'); end >= 0 {
+			line = rest[:end+1]
+		}
+		rest = rest[len(line):]
+
+		switch {
+		case inSig && line[0] == ' ':
+			sig.Write(line[1:])
+		case bytes.HasPrefix(line, []byte(header)):
+			if found {
+				return nil, "", fmt.Errorf("commit with several signatures")
+			}
+			found, inSig = true, true
+			sig.Write(line[len(header):])
+		default:
+			inSig = false
+			payload = append(payload, line...)
+		}
+	}
+	payload = append(payload, rest...)
+
+	return payload, sig.String(), nil
 }
